@@ -115,7 +115,7 @@ func (x *fx) declMemVersion(name, tag string) string {
 			}
 			if _, isI := isInt(et); isI {
 				lo, hi := intRange(et)
-				x.assume(fmt.Sprintf("(forall ((r Int) (i Int)) (! (and (<= %s (select (select %s r) i)) (<= (select (select %s r) i) %s)) :pattern ((select (select %s r) i))))", smtInt(lo), v, v, smtInt(hi), v))
+				x.assume(fmt.Sprintf("(forall ((q!r Int) (q!i Int)) (! (and (<= %s (select (select %s q!r) q!i)) (<= (select (select %s q!r) q!i) %s)) :pattern ((select (select %s q!r) q!i))))", smtInt(lo), v, v, smtInt(hi), v))
 			}
 		}
 	}
